@@ -401,8 +401,13 @@ def _loops(item_text, body_open):
     return res
 
 
-def splice_fn(item, directives, log):
-    """directives: list of dicts. Returns spliced text."""
+PROBE = "proof { assert(false); } /*probe*/"
+
+
+def splice_fn(item, directives, log, probe=False):
+    """directives: list of dicts. Returns spliced text.
+    probe=True additionally inserts `assert(false)` at function entry and at the head of every
+    contracted loop body (vacuity twin: each probe MUST fail)."""
     text = item.text
     inserts = []  # (offset, order, text)  -- plain insertions
     substs = []   # (start, end, replacement)
@@ -468,6 +473,8 @@ def splice_fn(item, directives, log):
         op = d["op"]
         if op == "sig":
             inserts.append((bo, order, "\n" + d["text"] + "\n    ")); order += 1
+            if probe:
+                inserts.append((bo + 1, order, " " + PROBE)); order += 1
         elif op == "loop":
             if loops is None:
                 loops = _loops(text, bo)
@@ -475,6 +482,8 @@ def splice_fn(item, directives, log):
             if k > len(loops):
                 raise AnchorLost(f"{item.name}: loop {k} not found (has {len(loops)})")
             inserts.append((loops[k - 1][1], order, "\n" + d["text"] + "\n")); order += 1
+            if probe:
+                inserts.append((loops[k - 1][1] + 1, order, " " + PROBE)); order += 1
         elif op == "forname":
             if loops is None:
                 loops = _loops(text, bo)
@@ -542,7 +551,7 @@ def _kv(s):
     return out
 
 
-def build_unit(template_path, repo, verif_root):
+def build_unit(template_path, repo, verif_root, probe=False):
     """Returns (unit_text, manifest) where manifest lists extracted items, log, and raises AnchorLost."""
     log = []
     items = []
@@ -611,7 +620,7 @@ def build_unit(template_path, repo, verif_root):
                 for d in dirs:
                     d["text"] = d["text"].rstrip("\n")
                 if kind == "fn" and (dirs or it.body_open is not None):
-                    txt = splice_fn(it, dirs, log) if it.body_open is not None else it.text
+                    txt = splice_fn(it, dirs, log, probe) if it.body_open is not None else it.text
                 else:
                     txt = it.text
                 out.append(txt)
@@ -627,8 +636,8 @@ def build_unit(template_path, repo, verif_root):
 
 if __name__ == "__main__":
     import json
-    if sys.argv[1] == "build":
-        text, man = build_unit(sys.argv[2], sys.argv[3], os.path.dirname(os.path.dirname(os.path.abspath(__file__))))
+    if sys.argv[1] in ("build", "probe"):
+        text, man = build_unit(sys.argv[2], sys.argv[3], os.path.dirname(os.path.dirname(os.path.abspath(__file__))), sys.argv[1] == "probe")
         sys.stdout.write(text)
         sys.stderr.write(json.dumps(man, indent=1) + "\n")
     elif sys.argv[1] == "items":
